@@ -193,6 +193,9 @@ func (c *ControllerWithEvents) LockLedger(ctx context.Context) (Controller, bun.
 		Controller: ctrl,
 		listener:   c.listener,
 		parent:     c,
+		// locking does not open a transaction of its own, but it must not leave the one
+		// the parent is in: events keep waiting for that transaction's commit
+		hasTx: c.hasTx,
 	}, db, release, nil
 }
 
